@@ -348,6 +348,11 @@ impl<'a, T> ContextBase<'a, T> {
 
     #[doc(hidden)]
     pub fn set_error_path(&self, error: ServerError) -> ServerError {
+        // An error that propagates through non-null ancestors already carries
+        // the path of the field that raised it; keep that path.
+        if !error.path.is_empty() {
+            return error;
+        }
         if let Some(node) = self.path_node {
             let mut path = Vec::new();
             node.for_each(|current_node| {
